@@ -7,6 +7,8 @@ package main
 
 import (
 	"bufio"
+	"bytes"
+	"encoding/gob"
 	"encoding/hex"
 	"encoding/json"
 	"flag"
@@ -387,6 +389,43 @@ func (m *machine) exec(s M) (ret any) {
 			panic(herr("bad hex"))
 		}
 		e := m.reg(s, "z").GobDecode(b)
+		ret = M{"err": e != nil}
+	case "GobMutate":
+		// encode x, corrupt the payload as the step says, decode into z; the corrupted payload is logged
+		b, err := m.reg(s, "x").GobEncode()
+		if err != nil {
+			panic(herr("GobEncode failed"))
+		}
+		switch str(s, "mut") {
+		case "xor":
+			if len(b) > 0 {
+				b[int(num(s, "pos"))%len(b)] ^= byte(num(s, "val"))
+			}
+		case "set":
+			if len(b) > 0 {
+				b[int(num(s, "pos"))%len(b)] = byte(num(s, "val"))
+			}
+		case "trunc":
+			b = b[:int(num(s, "pos"))%(len(b)+1)]
+		case "append":
+			x, _ := hex.DecodeString(str(s, "bytes"))
+			b = append(b, x...)
+		case "settail": // overwrite the last word's top bytes (mantissa words >= 10^19, unnormalised words)
+			if len(b) >= 18 {
+				i := 10 + 8*(int(num(s, "pos"))%((len(b)-10)/8))
+				x, _ := hex.DecodeString(str(s, "bytes"))
+				copy(b[i:], x)
+			}
+		}
+		e := m.reg(s, "z").GobDecode(b)
+		ret = M{"err": e != nil, "hex": hex.EncodeToString(b)}
+	case "GobStream":
+		var buf bytes.Buffer
+		if err := gob.NewEncoder(&buf).Encode(m.reg(s, "x")); err != nil {
+			ret = M{"err": true}
+			break
+		}
+		e := gob.NewDecoder(&buf).Decode(m.reg(s, "z"))
 		ret = M{"err": e != nil}
 	case "GobRoundTrip":
 		// x -> GobEncode -> GobDecode into z
